@@ -614,6 +614,9 @@ func TestC01(t *testing.T) {
 		return c01Case{What: "options", Path: fmt.Sprintf("bits=%d", i%1024), Load: loadCase{Files: []memFile{{Name: "compose.yaml", Content: optDocs[i/1024]}}, Main: []string{"compose.yaml"}, Opts: optsFromBits(i % 1024), Env: map[string]string{"SVAL": "v"}}}
 	}, c01Check, true)
 
+	// replay entry point for inputs saved by the native fuzz target FuzzC01
+	RunEnum(c, t, "fuzz", 0, func(i int) c01Case { return c01Case{} }, c01Check, false)
+
 	// (2) mutated valid models under random options
 	RunRapid(c, t, Sub[c01Case]{Kind: "mutated-models", Quick: 6000, Thorough: 200_000, Gen: genC01Mutated, Check: c01Check})
 }
